@@ -25,10 +25,7 @@ session.commit()
 agg = Aggregator(session, top_level_only=False)
 m = agg.model
 ids = lambda a: sorted(f.id for f in a.fits)
-try:
-    q = ~((m.a.b == 1) | (m.d == "x"))
-    print("no exception", ids(agg.query(q)))
-    raise SystemExit("defect not reproduced")
-except TypeError as e:
-    print("TypeError:", e, "-- expected ['f2', 'f3', 'f4']")
-print("reproduced: not-of-junction")
+got = ids(agg.query(~((m.a.b == 1) | (m.d == "x"))))
+print("returned", got, "expected ['f2', 'f3', 'f4']  (before 21e37aa: TypeError, junctions could not be negated)")
+assert got == ["f2", "f3", "f4"], got
+print("checked: not-of-junction (fixed in 21e37aa)")
